@@ -30,4 +30,9 @@ def obligations(tier):
     for k in range(MAXALLOC[4] + 1):
         hit = 1 <= k <= 8
         obs.append(ob(4, k, kfs=(['C18-config-copy-shared-hooks'] if hit else []), kf_only=hit))
+    # decompressor chain: the k-th layer cannot be created (allocation failure inside htp_gzip_decompressor_create): nothing destroyed stays reachable
+    c7 = __import__('C07')
+    for toks, ks in ((('gzip', 'deflate'), (0, 1)), (('gzip', 'gzip', 'gzip'), (0, 1, 2)), (('lzma', 'gzip'), (1,))):
+        for k in ks:
+            o = c7.layers(toks, 0, failk=k); o.expect_covers = False; obs.append(o)
     return obs
